@@ -1,4 +1,5 @@
 import CrabProofs.Lemmas.WtoFixBridge
+import CrabProofs.Props.C07
 
 /-!
 # C07 (bridge) — an ordering accepted by `checkWto` is well-formed for the fixpoint iterator
@@ -26,3 +27,10 @@ theorem C07.checkWto_implies_fix_wtowf {A : Type} (g : Graph) (e : Nat) (w : Lis
 example : checkWto
     { n := 3, succ := fun u => match u with | 0 => [1] | 1 => [1, 2] | _ => [] } 0
     [.vertex 0, .cycle 1 [], .vertex 2] [(0, []), (1, []), (2, [])] = true := by decide
+
+/-- with `C07.build_wf`: the ordering the model builds is well-formed for the fixpoint iterator,
+    for every graph, with no check left -/
+theorem C07.build_fix_wtowf {A : Type} (g : Graph) (hg : g.WF) (e : Nat) (he : e < g.n) (c : Fix.Ctx A)
+    (hpreds : ∀ p n, p ∈ c.preds n → n ∈ g.succ p) (hentry : c.entry = e)
+    (hnest : c.nesting = nesting (build g e)) : Fix.WtoWF c (toCompL (build g e)) :=
+  fix_wtowf_of_wtowf (C07.build_wf g hg e he) c hpreds hentry hnest
